@@ -12,7 +12,11 @@ VacOK(e) == \A o \in 1..Len(e.outs) : e.outs[o].panic # "" \/ (IF IsXp(e) THEN X
 BeOK(e) == e.inputs_same /\ \A o1, o2 \in 1..Len(e.outs) : o1 # o2 => \A x \in Who(e, o1), y \in Who(e, o2) : x.f # y.f
 FillOK(e) == \A o1, o2 \in 1..Len(e.outs) : o1 # o2 => \A x \in Who(e, o1), y \in Who(e, o2) : x.b # y.b
 ScrOK(e) == \A r \in 1..Len(e.scr) : \A c \in 1..Len(e.scr[r].calls) : CallOK(e.scr[r].calls[c])
+\* a behaviour that panicked before its inputs existed (key generation / encryption) has nothing to evaluate
+Ran(e) == e.a.rank # -1
 Verdict(e, k) ==
+  IF ~Ran(e) THEN << <<k, "sem">> >> \o (IF ScrOK(e) THEN <<>> ELSE << <<k, "scr">> >>)
+  ELSE
      (IF (IF IsXp(e) THEN KeyGgswOK(e) ELSE (Fam(e) # "ks" \/ KeyOK(e))) THEN <<>> ELSE << <<k, "key">> >>)
   \o (IF SemOK(e) THEN <<>> ELSE << <<k, "sem">> >>)
   \o (IF VacOK(e) THEN <<>> ELSE << <<k, "vacuous">> >>)
